@@ -245,7 +245,7 @@ func init() {
 	reg(&Family{
 		Name: "modules", NConn: 3, Tags: []string{"C02", "C05", "C06", "C16"}, Cfg: world.Config{Modules: []string{"vikja", "odal", "dagaz"}},
 		Setup: []Ev{{K: "join", C: 0, X: -1}, {K: "join", C: 1, X: 0}, {K: "eadd", C: 0, X: 0}, {K: "eadd", C: 1, X: 1}},
-		Doc:   "session {c0,c1}, all modules; e0 (c0, non-persistent), e1 (c1, persistent); actions with timestamps t0<t1<t2, equal, zero and missing, names n0/n1/empty, entities own/foreign/never; assets ax/ay/empty on own/foreign/never; entity deletes, departures, a late joiner c2",
+		Doc:   "session {c0,c1}, all modules; e0 (c0, non-persistent), e1 (c1, persistent); actions with timestamps t0<t1<t2, equal, zero and missing, names n0/n1/empty, entities own/foreign/never; assets ax/ay/empty on own/foreign/never; entity deletes by owner and non-owner of the persistent and the non-persistent entity, departures, a late joiner c2",
 		Enabled: func(m *Model) []Ev {
 			var evs []Ev
 			if c := m.Conns[0]; c.Open && c.Sess != nil {
@@ -263,7 +263,7 @@ func init() {
 			}
 			if c := m.Conns[1]; c.Open && c.Sess != nil {
 				evs = append(evs, Ev{K: "action", C: 1, X: 0, Y: 0, Z: 0}, Ev{K: "action", C: 1, X: 0, Y: 0, Z: 2}, Ev{K: "action", C: 1, X: 1, Y: 0, Z: 1},
-					Ev{K: "asset", C: 1, X: 1, Y: 1}, Ev{K: "edel", C: 1, X: 1}, Ev{K: "close", C: 1})
+					Ev{K: "asset", C: 1, X: 1, Y: 1}, Ev{K: "edel", C: 1, X: 1}, Ev{K: "edel", C: 1, X: 0}, Ev{K: "close", C: 1})
 			}
 			if c := m.Conns[2]; c.Open {
 				if c.Sess == nil {
@@ -383,7 +383,7 @@ func init() {
 	reg(&Family{
 		Name: "pose-churn", NConn: 4, Tags: []string{"C11", "C02"},
 		Setup: []Ev{{K: "join", C: 0, X: -1}, {K: "join", C: 1, X: 0}, {K: "eadd", C: 1, X: 0}},
-		Doc:   "session {c0,c1}, c1 owns an entity and keeps sending pose updates; c0, c2, c3 join, leave and re-join around it; frame ticks",
+		Doc:   "session {c0,c1}, c1 owns an entity and keeps sending pose updates (new values and the value the entity already has); c0, c2, c3 join, leave and re-join around it; frame ticks",
 		Enabled: func(m *Model) []Ev {
 			var evs []Ev
 			for _, c := range []int{0, 2, 3} {
@@ -400,7 +400,9 @@ func init() {
 				}
 			}
 			if c := m.Conns[1]; c.Open && c.Sess != nil {
-				evs = append(evs, Ev{K: "pose", C: 1, X: 0}, Ev{K: "close", C: 1})
+				// Y=1: an update carrying the pose the entity already has (still a
+				// processed pose update: relayed once to every other member)
+				evs = append(evs, Ev{K: "pose", C: 1, X: 0}, Ev{K: "pose", C: 1, X: 0, Y: 1}, Ev{K: "close", C: 1})
 				if len(m.Sessions) < 2 {
 					evs = append(evs, Ev{K: "join", C: 1, X: -1}) // switch with an update possibly pending
 				}
